@@ -379,12 +379,12 @@ def verify(case, p, acc, pristine=None):
         text, m = matrix_text(case)
         im = p.interaction_matrix
         n = case['n']
-        NAMES = case_names(case)
+        MN = case_names(case)
         acc.extra['states'] += n
         acc.extra['transitions'] += n * (n + 1) // 2
         for i in range(n):
             for j in range(n):
-                a, b = NAMES[i], NAMES[j]
+                a, b = MN[i], MN[j]
                 g1, g2 = im.get_value(a, b), im.get_value(b, a)
                 want = m[(i, j)]
                 try:
@@ -397,12 +397,12 @@ def verify(case, p, acc, pristine=None):
                     pass      # only the symmetry is claimed for a re-declared row
                 elif g1 != want or type(g1) is not type(want):
                     v.append(('matrix-wrong-value', 'get_value(%s,%s)=%r expected %r' % (a, b, g1, want)))
-            if im.get_value(NAMES[i], 'ZZZ') is not None or im.get_value('ZZZ', NAMES[i]) is not None:
+            if im.get_value(MN[i], 'ZZZ') is not None or im.get_value('ZZZ', MN[i]) is not None:
                 v.append(('matrix-unknown-name', 'unknown name returns a value'))
-        for i in range(n, len(NAMES)):      # names the file does not declare
-            for j in range(len(NAMES)):
-                if im.get_value(NAMES[i], NAMES[j]) is not None or im.get_value(NAMES[j], NAMES[i]) is not None:
-                    v.append(('matrix-undeclared-name-has-value', 'get_value(%s,%s) is not None' % (NAMES[i], NAMES[j])))
+        for i in range(n, len(MN)):      # names the file does not declare
+            for j in range(len(MN)):
+                if im.get_value(MN[i], MN[j]) is not None or im.get_value(MN[j], MN[i]) is not None:
+                    v.append(('matrix-undeclared-name-has-value', 'get_value(%s,%s) is not None' % (MN[i], MN[j])))
     elif k in ('pairs', 'pairs2'):
         text, ref, default = pair_text(case) if k == 'pairs' else pair2_text(case)
         pm = p.sidechain_cutoffs
